@@ -17,6 +17,7 @@ from . import _cmdspace as S
 ID = "C18"
 OPTIMISED_STRIDE = {"quick": 8, "thorough": 8}      # every k-th shard once more in an interpreter started with -O
 TRACE_STRIDE = {"quick": 3, "thorough": 3}      # every k-th shard once more with logging enabled down to TRACE
+BYTEORDER_STRIDE = {"quick": 6, "thorough": 6}      # every k-th shard once more with sys.byteorder reporting a big-endian host
 LEVEL = "exploration"
 ENGINE = "E1"
 TECHNIQUE = "exhaustive enumeration of commands, frames, sequence-number histories and report codes through the real drivers with bytes captured at the transport seam vs reference encoders"
